@@ -18,8 +18,11 @@ import multiprocessing as mp
 VERIF = os.path.dirname(os.path.dirname(os.path.abspath(__file__)))
 REPO = os.environ.get("VERIF_REPO", "/repo")
 SPEC = os.path.join(VERIF, "spec")
-WORKROOT = os.path.join(VERIF, ".work")
-EVID = os.path.join(VERIF, "evidence")
+# a run against another tree (tools/try_mutant.sh) never touches the committed evidence or the scratch
+# directories of a run against /repo
+_ALT = "VERIF_REPO" in os.environ and os.path.abspath(REPO) != "/repo"
+WORKROOT = os.path.join(VERIF, ".work", "alt-" + os.path.basename(REPO.rstrip("/"))) if _ALT else os.path.join(VERIF, ".work")
+EVID = os.path.join(WORKROOT, "evidence") if _ALT else os.path.join(VERIF, "evidence")
 REPLAYS = os.path.join(EVID, "replays")
 TLA_JAR = "/opt/veriftools/tla/tla2tools.jar:/opt/veriftools/tla/CommunityModules-deps.jar"
 
@@ -211,13 +214,25 @@ def _alarm(signum, frame):
     raise CaseTimeout()
 
 
+# Per-case limits are measured in CPU time of the worker (ITIMER_PROF), not wall-clock time, so that a loaded
+# machine cannot turn a slow schedule into a "Timeout" disagreement; the library is pure computation, a hang
+# is a busy loop.
+def arm(seconds):
+    signal.signal(signal.SIGPROF, _alarm)
+    signal.setitimer(signal.ITIMER_PROF, seconds)
+
+
+def disarm():
+    signal.setitimer(signal.ITIMER_PROF, 0)
+
+
 _WORKER = {}
 
 
 def _worker_init(modname, repo):
     os.environ["VERIF_REPO"] = repo
     sys.setrecursionlimit(3000)
-    signal.signal(signal.SIGALRM, _alarm)
+    signal.signal(signal.SIGPROF, _alarm)
     import importlib
     mod = importlib.import_module(modname)
     _WORKER["mod"] = mod
@@ -229,7 +244,7 @@ def _worker_run(chunk):
     mod = _WORKER["mod"]
     out = []
     for case in chunk:
-        signal.setitimer(signal.ITIMER_REAL, getattr(mod, "CASE_TIMEOUT", 20.0))
+        arm(getattr(mod, "CASE_TIMEOUT", 20.0))
         try:
             r = mod.check_case(case)
         except CaseTimeout:
@@ -239,10 +254,10 @@ def _worker_run(chunk):
             r = {"dis": [{"clause": "HarnessRecursionError", "detail": traceback.format_exc()[-600:]}],
                  "nontrivial": True}
         except Exception:
-            signal.setitimer(signal.ITIMER_REAL, 0)
+            disarm()
             raise MachineryError("harness exception on case %r:\n%s" % (case, traceback.format_exc()))
         finally:
-            signal.setitimer(signal.ITIMER_REAL, 0)
+            disarm()
         out.append((case, r))
     return out
 
